@@ -35,6 +35,8 @@ def run(ctx):
     ctx.guarded('R09f', 'mdb_shard::interpolation_search::search_on_sorted_u64s', lambda: r09f(ctx))
     ctx.rule('R09g', 'shard writers advance the byte position they record in the footer (or report to their caller) by exactly what they wrote: the count returned by each write is added, or a loop of uncounted writes is matched by one `+= trips * record size` (keyed-shard exporter, the two section writers of serialize_from, MDBFileInfo::serialize)')
     ctx.guarded('R09g', 'position accounting', lambda: r09g(ctx))
+    ctx.rule('R09h', 'a record header is taken for the end-of-section bookend only if its whole 256-bit hash equals the all-ones hash (full-width equality with the constant the bookend constructors write): a stored record with an extreme key is never mistaken for the end of the section')
+    ctx.guarded('R09h', 'bookend recognisers', lambda: r09h(ctx))
 
 
 def r09a(ctx):
@@ -660,3 +662,48 @@ def iterations_under(a, site, edges, _depth=0):
     if c is not None and c.get('bound') is not None and guarded(c['bound'], None):
         return True
     return False
+
+
+def r09h(ctx):
+    """C09d: `file_hash.iter().any(|w| w == !0)` ends the file section at any record with one all-ones word."""
+    F = ctx.F
+    from .core import as_comparison
+
+    def all_ones(e):
+        # [!0u64; 4] (possibly through .into()/From): every element is the bitwise complement of 0 / u64::MAX
+        while e[0] == 'call' and sg(e[1]).split('::')[-1] in ('into', 'from') and len(e[2]) == 1:
+            e = e[2][0]
+        if e[0] == 'agg' and e[1] in ('repeat', 'array') and e[3]:
+            return all((c[0] == 'un' and c[1] == 'Not' and c[2][:2] == ('const', 0)) or (c[0] == 'const' and c[1] == 0xFFFFFFFFFFFFFFFF) for (_, c) in e[3])
+        return False
+
+    for ty, fld in ((FS + 'FileDataSequenceHeader', 'file_hash'), (CS + 'CASChunkSequenceHeader', 'cas_hash')):
+        a = an(F.body(ty + '::is_bookend'))
+        rets = [e for (_, _, k, e) in a.ret_sites()]
+        ok = False
+        if len(rets) == 1:
+            c = as_comparison(rets[0])
+            if c is not None and c[0] == 'Eq':
+                l, r = c[1], c[2]
+                for (x, y) in ((l, r), (r, l)):
+                    if x[0] == 'field' and x[2] == fld and x[1][0] == 'param' and all_ones(y):
+                        ok = True
+        if not ok and len(rets) == 1:
+            # `self.hash.iter().all(|&w| w == !0)`: every word, not some word
+            e = rets[0]
+            if e[0] == 'call' and sg(e[1]).split('::')[-1] == 'all' and len(e[2]) == 2 and flow.mentions(e[2][0], lambda z: z[0] == 'field' and z[2] == fld) and e[2][1][0] == 'agg' and e[2][1][1] == 'closure':
+                cb = F.bodies.get(e[2][1][2])
+                if cb is not None:
+                    ac = an(cb)
+                    cr = [x for (_, _, _, x) in ac.ret_sites()]
+                    cc = as_comparison(cr[0]) if len(cr) == 1 else None
+                    one = lambda z: (z[0] == 'un' and z[1] == 'Not' and z[2][:2] == ('const', 0)) or (z[0] == 'const' and z[1] == 0xFFFFFFFFFFFFFFFF)
+                    if cc is not None and cc[0] == 'Eq' and (one(cc[1]) or one(cc[2])) and flow.mentions(cc[2] if one(cc[1]) else cc[1], lambda z: z[0] == 'param'):
+                        ok = True
+        ctx.check(ok, 'R09h', ty + '::is_bookend', 'full equality', '-', 'is_bookend is `self.%s == <all-ones hash>` over the whole hash' % fld,
+                  'cannot establish: is_bookend compares the whole %s with the all-ones hash (found %s): a record whose key merely contains an all-ones word, or any other partial test, would end the section early' % (fld, flow.show(rets[0])[:80] if rets else '?'))
+        # the constructor writes that same constant
+        b = an(F.body(ty + '::bookend'))
+        okb = any(all_ones(z) for bb in sorted(b.cfg.reach0) for st in b.blocks[bb]['s'] if st.get('r') for z in flow.subtrees(b.flow.rvalue(st['r'], 0))) or \
+            any(all_ones(z) for (_, _, _, e) in b.ret_sites() for z in flow.subtrees(e))
+        ctx.check(okb, 'R09h', ty + '::bookend', 'constant', '-', 'the bookend constructor writes the all-ones hash')
